@@ -36,13 +36,13 @@ def r1(ctx):
               expected="x = admm_update_x(...); return x", found="; ".join(unparse(d.ast) for d in defs if d.ast is not None)[:200])
     # admm_update_x returns the proximal step's result
     ux = ana.func(SOLVER + "admm_update_x")
-    b = ana.builder(ux, no_inline=lambda f: True)
+    b = ana.builder(ux, no_inline=ana.known)
     rt = b.return_term()
     ok = isinstance(rt, App) and rt.fn == ana.func(SOLVER + "x_update_prox").qualname
     ctx.check(ok, ux, "the X update returns x_update_prox(...)", role="x-is-prox", expected="x_update_prox(S, reinflate(z - u), rho)", found=str(rt)[:140])
     # public entry point returns the solver's result
     fe = ana.func("admm.front_end.admm_optimize_theta")
-    bf = ana.builder(fe, no_inline=lambda f: True)
+    bf = ana.builder(fe, no_inline=ana.known)
     rf = bf.return_term()
     ok = isinstance(rf, App) and rf.fn.endswith("results.ADMMResult") and rf.kwarg("theta") is not None \
         and isinstance(rf.kwarg("theta"), App) and rf.kwarg("theta").fn == fi.qualname
@@ -53,7 +53,7 @@ def r1(ctx):
 def eigen_map(ana):
     """Pieces (guard, value) of the eigenvalue vector fed to numpy.diag in x_update_prox, plus d, rho."""
     fi = ana.func(SOLVER + "x_update_prox")
-    b = ana.builder(fi, no_inline=lambda f: True)
+    b = ana.builder(fi, no_inline=ana.known)
     rt = b.return_term()
     diags = [x for x in tm.subterms(rt) if isinstance(x, App) and x.fn == "numpy.diag"]
     if len(diags) != 1:
@@ -98,7 +98,7 @@ def r2(ctx):
 def reinflate_symmetry(ctx):
     ana = ctx.ana
     fi = ana.func("matrix_compression._upper_to_full")
-    b = ana.builder(fi, no_inline=lambda f: True)
+    b = ana.builder(fi, no_inline=ana.known)
     rt = b.return_term()
     U = Sym(fi.params[0])
     want = tm.add(tm.add(U, tm.transpose(U)), tm.neg(App("numpy.diag", (App("diagonal", (U,)),))))
@@ -107,7 +107,7 @@ def reinflate_symmetry(ctx):
     ctx.check(tm.transpose(rt) == rt, fi, "the reinflated matrix is invariant under transposition (exactly symmetric)", role="mirror:symmetric",
               expected="T(full) == full", found=str(tm.transpose(rt)))
     re_ = ana.func("matrix_compression.reinflate_matrix")
-    br = ana.builder(re_, no_inline=lambda f: True)
+    br = ana.builder(re_, no_inline=ana.known)
     r = br.return_term()
     ok = isinstance(r, App) and r.fn == fi.qualname and len(r.args) == 1 and isinstance(r.args[0], App) \
         and r.args[0].fn.endswith("_uncompress_upper_triangle") and r.args[0].args == (Sym(re_.params[0]),)
@@ -123,7 +123,7 @@ def r3(ctx):
 def r4(ctx):
     ana = ctx.ana
     fi = ana.func(GL + "_zero_small_elements")
-    b = ana.builder(fi, no_inline=lambda f: True)
+    b = ana.builder(fi, no_inline=ana.known)
     arr, eps = Sym(fi.params[0]), Sym(fi.params[1])
     rt = b.return_term()
     if not isinstance(rt, Sym):
@@ -185,7 +185,7 @@ def r5(ctx):
     ana = ctx.ana
     # site 1: MRF update
     upd = ana.func(GL + "_update_cluster_covariances")
-    bu = ana.builder(upd, no_inline=lambda f: True)
+    bu = ana.builder(upd, no_inline=ana.known)
     ti = [s for s in bu.stores() if s.attr == "train_inverse"]
     ld = [s for s in bu.stores() if s.attr == "log_determinant"]
     if len(ti) != 1 or len(ld) != 1:
@@ -197,8 +197,8 @@ def r5(ctx):
               role="logdet:mrf-update", expected="numpy.linalg.slogdet(train_inverse)[1]", found=how)
     # site 2: scoring refresh
     ll = ana.func("likelihood.all_points_all_clusters_log_likelihood")
-    bl = ana.builder(ll, no_inline=lambda f: True)
-    ld2 = [s for s in bl.stores() if s.attr == "log_determinant"]
+    bl = ana.builder(ll, no_inline=ana.known)
+    ld2 = [s for s in bl.stores() if s.attr == "log_determinant"]   # includes stores of helpers extracted from the wrapper
     if len(ld2) != 1:
         raise AnalysisError("likelihood refresh: log_determinant store not found exactly once")
     s = ld2[0]
